@@ -89,6 +89,12 @@ def run(rep):
              'tuple on every exit, hit or miss, and _subscribe subscribes to EVERY '
              'required specification not yet recorded (lookupAll()/names() recompute '
              'from their own cache; shared with C04 R04.7 / C05 INV-4)', floor=2)
+    rep.rule('R08.10', 'every entry point answers from the same, current state: the '
+             'first-hit walker of lookup() and the collecting walkers of lookupAll()/'
+             'subscriptions() read the same linearization (__sro__) of each required '
+             'specification, and _createLookup re-binds every delegated entry point to '
+             'the NEW lookup object (an entry point left on the old one answers from '
+             'caches changed() no longer reaches; C04 R04.1, C09 R09.9)', floor=8)
     rep.rule('R08.9', 'one calling convention per entry point: every C entry '
              '(LookupBase and VerifyingBase tables) takes the parameters of its '
              'Python twin - names, order, optional ones - so a call spelled with '
@@ -196,3 +202,7 @@ def run(rep):
     subscribe_all_spec(rep, mod, 'R08.8')
     from .C10 import lookup_signatures
     lookup_signatures(rep, cside.cu(rep), mod, 'R08.9')
+    # ---- R08.10 ------------------------------------------------------------
+    sem.check_walkers(rep, 'R08.10', find_def(mod, '_lookup'), 'first')
+    from .C05 import delegation_spec
+    delegation_spec(rep, mod, 'R08.10')
